@@ -420,7 +420,9 @@ func c05BFS(r *mc.Report, e *Env, r5, r6 *mc.Report) {
 
 func init() {
 	register(&Prop{ID: "C05", Level: "model_checking", Run: runC05, Replay: replayC05,
-		Workers: func(e *Env) int { return len(c05Tasks(e.Thorough())) + c05bTasks(e.Thorough()) }, Procs: 1,
+		Workers: func(e *Env) int {
+			return len(c05Tasks(e.Thorough())) + c05bTasks(e.Thorough()) + c05wTasks(e.Thorough())
+		}, Procs: 1,
 		Budget: func(t string) time.Duration {
 			if t == "thorough" {
 				return 30 * time.Minute
@@ -430,7 +432,7 @@ func init() {
 }
 
 func runC05(r *mc.Report, e *Env) {
-	r.Rule = "(a) BFS: every transition is one real Put on a fresh pebble-backed store reached by replaying its history; after it the database is scanned and the capacity / usage / farthest-first clauses are evaluated; (b) every interleaving (bounded preemptions) of concurrent Puts at injected yield points, clauses evaluated at quiescence; distinct = distinct canonical store states / final outcomes"
+	r.Rule = "(a) BFS: every transition is one real Put on a fresh pebble-backed store reached by replaying its history; after it the database is scanned and the capacity / usage / farthest-first clauses are evaluated; (b) every interleaving (bounded preemptions) of concurrent Puts at injected yield points, clauses evaluated at quiescence; (w) the stores wired by portal.NewNode filled past the node's capacity through the protocol and the RPC, clauses evaluated against the node's own id and capacity after every put; distinct = distinct canonical store states / final outcomes"
 	if freeRuns > 0 { // race-detector pass: only the concurrent scenarios, in this process
 		for t := 0; t < c05bTasks(e.Thorough()); t += c05bShards {
 			runC05b(r, e, t)
@@ -439,12 +441,17 @@ func runC05(r *mc.Report, e *Env) {
 	}
 	if nb := len(c05Tasks(e.Thorough())); e.Of <= 1 || e.Shard < nb {
 		c05BFS(r, e, r, nil)
-	} else {
+	} else if nc := c05bTasks(e.Thorough()); e.Shard < nb+nc {
 		runC05b(r, e, e.Shard-nb)
+	} else {
+		runC05w(r, e, e.Shard-nb-nc)
 	}
 }
 
 func replayC05(r *mc.Report, e *Env, raw json.RawMessage) {
+	if replayC05w(r, e, raw) {
+		return
+	}
 	var c c05Case
 	if err := json.Unmarshal(raw, &c); err == nil && len(c.Hist) > 0 {
 		c05Run1(r, nil, c.Node, c.Hist)
